@@ -19,7 +19,7 @@ ID = "C12"
 LEVEL = "model_checking"
 MIN_OUTCOMES = 3
 MANIFEST = {
-    'text': 'All strings over the stated 15/17-symbol alphabet (quotes, backslash, $, backtick, %, newline, non-ASCII incl. a decomposed accent and U+2126 that change under Unicode normalisation, placeholders, OLD/NEW) up to length 3/4 in every slot (commit and tag message via TOML config, via setup.cfg and via CLI, file name, version-pattern literal) are run through the real `update` with a fake git/hg at the subprocess seam; the recorded argv vectors must equal those of the benign baseline run with only the one argument replaced by the expected text (hg: the --logfile content). Twelve whole messages in the shapes people use (`[ci/skip] ...`, `[skip ci]`, `chore(release): ...`, branch-listing look-alikes, multi-line bodies) run in repositories with an upstream, with only a remote URL and without any remote - the fake answers `git branch -vv` with the subject of the commit just made, as git does. Projects with 330 configured files / 60 paths of ~150 characters: the multiset of paths handed to `git add` equals the configured files however the commands are grouped. Every string up to length 2 is additionally committed and tagged with a real git and read back from the objects.',
+    'text': "All strings over the stated 15/17-symbol alphabet (quotes, backslash, $, backtick, %, newline, non-ASCII incl. a decomposed accent and U+2126 that change under Unicode normalisation, placeholders, OLD/NEW) up to length 3/4 in every slot (commit and tag message via TOML config, via setup.cfg and via CLI, file name, version-pattern literal) are run through the real `update` with a fake git/hg at the subprocess seam; the recorded argv vectors must equal those of the benign baseline run with only the one argument replaced by the expected text (hg: the --logfile content). Twelve whole messages in the shapes people use (`[ci/skip] ...`, `[skip ci]`, `chore(release): ...`, branch-listing look-alikes, multi-line bodies) run in repositories with an upstream, with only a remote URL and without any remote - the fake answers `git branch -vv` with the subject of the commit just made, as git does. A project whose newest tag is ahead of the config ({old_version}/OLD must be the tag's version). Projects with 330 configured files / 60 paths of ~150 characters: the multiset of paths handed to `git add` equals the configured files however the commands are grouped. Every string up to length 2 is additionally committed and tagged with a real git and read back from the objects.",
     'note': 'templates with braces other than the documented placeholders are outside the statement; how real git/hg interpret a leading dash is not covered (argv-level property)',
     'technique': 'exhaustive enumeration of a bounded input alphabet on the real code, differential trace oracle at the subprocess seam + real git',
 }
@@ -255,6 +255,42 @@ def check_value(st, slot, syms, kind, baseline, failing_single=None, remote="ups
     return problem[0]
 
 
+def tag_ahead(st):
+    """The newest tag is ahead of the config: the bump starts from the tag, and {old_version} / OLD in the messages are that version."""
+    for source in ("config", "cli"):
+        cfg = "\n".join([
+            "[bumpver]", 'current_version = "1.2.3"', 'version_pattern = "MAJOR.MINOR.PATCH"',
+            'commit_message = "bump {old_version} -> {new_version} ({old_version_pep440})"', 'tag_message = "release {new_version}, was {old_version}"',
+            "commit = true", "tag = true", "push = false", "", "[bumpver.file_patterns]", '"bumpver.toml" = [\'current_version = "{version}"\']', "",
+        ])
+        world.clear_dir(".")
+        world.write_tree({"bumpver.toml": cfg.encode()})
+        os.mkdir(".git")
+        fake = fakevcs.install(fakevcs.FakeVCS("git", tags_all=["1.2.1", "1.3.0"], status=[], remote=None))
+        args = ["update", "--patch", "--no-fetch"] + (["-c", "[rel] OLD -> NEW", "--tag-message", "NEW after OLD"] if source == "cli" else [])
+        try:
+            o = world.cli(*args)
+        finally:
+            fakevcs.uninstall()
+        st.evaluations += 1
+        st.transitions += 1
+        msgs = {}
+        for e in fake.effects():
+            if e["type"] == "cmd" and e["name"] in ("commit", "tag") and "--message" in e["argv"]:
+                msgs[e["name"]] = e["argv"][e["argv"].index("--message") + 1]
+        want = {"commit": "bump 1.3.0 -> 1.3.1 (1.3.0)", "tag": "release 1.3.1, was 1.3.0"} if source == "config" else {"commit": "[rel] 1.3.0 -> 1.3.1", "tag": "1.3.1 after 1.3.0"}
+        case = {"slot": "commit-" + source, "symbols": [], "vcs": "git", "tag_ahead": True}
+        st.observe(("tag-ahead", source, o.exit, o.crashed, sorted(msgs.items())))
+        st.state("tag-ahead", source)
+        st.nontriv("tag-ahead", source)
+        if o.exit != 0 or msgs != want:
+            st.outcomes["violation"] += 1
+            st.violation(f"C12:old-version-placeholder-when-the-newest-tag-is-ahead:{source}", case, {"exit": o.exit, "messages": msgs, "expected": want, "announced": [o.old_version, o.new_version]})
+        else:
+            st.validated += 1
+            st.outcomes["verbatim:commit-" + source] += 1
+
+
 def many_files(st):
     """Projects with very many configured files (330 through one glob; 60 with paths of ~150 characters, > 8,000 bytes of arguments):
     whatever way the staging commands are grouped, the paths handed to `git add` are exactly the configured files, each once."""
@@ -387,6 +423,7 @@ def run_chunk(chunk):
         return st
     if mode == "manyfiles":
         many_files(st)
+        tag_ahead(st)
         os.chdir("/")
         return st
     if mode == "idioms":
@@ -497,7 +534,9 @@ def replay(case, st):
     else:
         remote = case.get("remote", "upstream")
         o, fake, _p = run(case["slot"], BENIGN, case["vcs"], remote=remote)
-        if case.get("many_files"):
+        if case.get("tag_ahead"):
+            tag_ahead(st)
+        elif case.get("many_files"):
             many_files(st)
         elif case.get("empty_template"):
             empty_template(st, case["slot"], case["vcs"], normalised_effects(fake))
